@@ -16,6 +16,7 @@ type runner struct {
 	cfg   *lib.Config
 	res   *lib.Result
 	cases *caseSink
+	ncases *nSink
 	// progress of the worker, watched by the deadline goroutine
 	current atomic.Value // *World
 	beat    int64
@@ -29,7 +30,7 @@ func main() {
 		"non-trivial when at least one definition is accepted and either (a) two constructed objects of one type are compared, or " +
 		"(b) an object of a type with a parent is tested against its ancestors, or (c) the last definition is rejected for a by-design reason; " +
 		"distinct = distinct (definition texts, requests)"
-	rn := &runner{cfg: cfg, res: res, cases: newCaseSink(cfg)}
+	rn := &runner{cfg: cfg, res: res, cases: newCaseSink(cfg), ncases: newNSink(cfg)}
 	done := make(chan struct{})
 	go func() {
 		defer close(done)
@@ -57,10 +58,13 @@ loop:
 				last, lastChange = b, time.Now()
 			} else if time.Since(lastChange) > 20*time.Second {
 				w, _ := rn.current.Load().(*World)
-				if w != nil {
+				if nw, _ := nCurrent.Load().(*NWorld); nw != nil {
+					res.Violate(lib.Violation{Clause: "terminates", What: "the implementation did not finish this world (nested family) within 20 s: " + describeNWorld(nw), Input: nReplayInput(nw, -1)})
+				} else if w != nil {
 					res.Violate(lib.Violation{Clause: "terminates", What: "the implementation did not finish this world within 20 s", Input: replayInput(w)})
 				}
 				rn.cases.flush(res)
+				rn.ncases.flush(res)
 				res.Write(cfg)
 				fmt.Fprintln(os.Stderr, "c17: deadline exceeded")
 				os.Exit(0)
@@ -68,6 +72,7 @@ loop:
 		}
 	}
 	rn.cases.flush(res)
+	rn.ncases.flush(res)
 	res.Write(cfg)
 }
 
@@ -229,6 +234,19 @@ func (rn *runner) run(root px.Context) {
 		r := rng.Fork()
 		rn.check(root, randomWorld(r), k < randomCoq)
 	}
+	// the nested family: attributes whose type is or contains another Object type (Model/ObjNest.v)
+	nNested, nestedCoq := 1500, 100
+	if cfg.Thorough() {
+		nNested, nestedCoq = 20000, 2500
+	}
+	for _, w := range corpusNWorlds() {
+		rn.checkNested(root, w, true)
+	}
+	rn.res.Extra["exhaustive_nested_worlds"] = exhaustiveNWorlds(func(w *NWorld) { rn.checkNested(root, w, true) })
+	for k := 0; k < nNested; k++ {
+		r := rng.Fork()
+		rn.checkNested(root, randomNWorld(r), k < nestedCoq)
+	}
 }
 
 // replay re-runs exactly the recorded world(s), prints what happens and emits the same case(s).
@@ -239,6 +257,14 @@ func (rn *runner) replay(root px.Context) {
 			World World  `json:"world"`
 		}
 		lib.Remarshal(in, &x)
+		if x.Kind == "nested" {
+			var y struct {
+				World NWorld `json:"world"`
+			}
+			lib.Remarshal(in, &y)
+			rn.replayNested(root, &y.World)
+			continue
+		}
 		if x.Kind != "world" {
 			continue
 		}
